@@ -753,7 +753,7 @@ theorem skel_Channel_build_inbound_messages : Gen.Skel.Channel_build_inbound_mes
     "else", "endif", "while", "r:is_closed", "do", "call:_build_message", "if", "then",
     "call:check_for_errors", "call:time.sleep", "if", "r:_inbound", "then", "break", "endif",
     "continue", "endif", "if", "then", "call:message.to_tuple", "yield", "continue", "endif",
-    "yield", "endwhile"] := by decide
+    "yield", "endwhile", "if", "r:exceptions", "then", "call:check_for_errors", "endif"] := by decide
 
 theorem skel_Channel_start_consuming : Gen.Skel.Channel_start_consuming =
   ["while", "r:is_closed", "do", "call:process_data_events", "if", "r:consumer_tags", "then",
